@@ -22,7 +22,7 @@ def case_strategy(draw):
     return prog
 
 
-def _sites(node, path=(), addrs=(), vec=0, active=True):
+def _sites(node, path=(), addrs=(), vec=0, active=True, sw_under_vec=False):
     """every static call site reachable from the top: (model path prefix pattern, list of get_subtrace
     arguments, number of vector levels above, callee node). Sites inside switch branches / masks are
     reported with their guard so that only active ones are asserted."""
@@ -33,17 +33,17 @@ def _sites(node, path=(), addrs=(), vec=0, active=True):
             a = s["addr"]
             comps = (a,) if isinstance(a, str) else tuple(a)
             ga = a if isinstance(a, str) else tuple(a)
-            out.append({"path": path + comps, "addrs": addrs + (ga,), "vec": vec, "callee": s["callee"]})
-            out += _sites(s["callee"], path + comps, addrs + (ga,), vec)
+            out.append({"path": path + comps, "addrs": addrs + (ga,), "vec": vec, "callee": s["callee"], "sw_under_vec": sw_under_vec})
+            out += _sites(s["callee"], path + comps, addrs + (ga,), vec, True, sw_under_vec)
     elif k in VEC:
-        out += _sites(node["g"], path + ("*",), addrs, vec + 1)
+        out += _sites(node["g"], path + ("*",), addrs, vec + 1, True, sw_under_vec)
     elif k == "switch":
         for b in node["bs"]:
-            out += _sites(b, path, addrs, vec)
+            out += _sites(b, path, addrs, vec, True, sw_under_vec or vec > 0)
     elif k == "or_else":
-        out += _sites(node["a"], path, addrs, vec) + _sites(node["b"], path, addrs, vec)
+        out += _sites(node["a"], path, addrs, vec, True, sw_under_vec or vec > 0) + _sites(node["b"], path, addrs, vec, True, sw_under_vec or vec > 0)
     elif k in ("mask", "dimap", "map", "contramap"):
-        out += _sites(node["g"], path, addrs, vec)
+        out += _sites(node["g"], path, addrs, vec, True, sw_under_vec)
     return out
 
 
@@ -80,6 +80,9 @@ def check_case(case, ctx=None):
     deep = 0
     for site in sites:
         if site["vec"] > 1:
+            continue
+        if site.get("sw_under_vec") and ctx is not None and ctx.is_open("get_subtrace_switch_under_vmap"):
+            ctx.exclude("get_subtrace_switch_under_vmap")
             continue
         below = [(p, v, lp, _match(site["path"], p)) for (p, v, lp) in run.terms]
         below = [(p, v, lp, ix) for (p, v, lp, ix) in below if ix is not None]
@@ -129,3 +132,30 @@ def replay(ctx, case):
         if k is None:
             raise
         ctx.violation(k, f"{type(e).__name__}: {e}"[:1500], case)
+
+
+def probes(ctx):
+    """open finding: get_subtrace through a Switch below a vector combinator indexes a Python list with a batched index"""
+    import genjax
+    import jax
+    import jax.numpy as jnp
+
+    @genjax.gen
+    def b0():
+        return genjax.normal(0.0, 1.0) @ "x"
+
+    @genjax.gen
+    def b1():
+        return genjax.normal(1.0, 1.0) @ "x"
+
+    @genjax.gen
+    def inner(i):
+        return genjax.switch(b0, b1)(i, (), ()) @ "s"
+
+    tr = inner.vmap().simulate(jax.random.key(0), (jnp.array([0, 1, 0]),))
+    try:
+        tr.get_subtrace("s", "x")
+        fails = False
+    except Exception:
+        fails = True
+    ctx.probe("get_subtrace_switch_under_vmap", fails, "get_subtrace('s','x') on a vmapped function that calls a switch raises")
